@@ -880,6 +880,10 @@ func buildEvidence(prop, tier string, seed int64, d *Describe, results []RunResu
 		"technique":            "deterministic simulation with fault injection (seeded search over schedules and fault sequences)",
 	}
 	assumptions := append([]string{"go-ethereum secp256k1, Go 1.26.8 testing/synctest and the harness reference models are trusted", "a clean batch is evidence, not proof: the space of histories, schedules and faults is sampled"}, d.Assumptions...)
+	if n, ok := probes["c05.forks"]; ok {
+		cov["crash_points"] = n
+		cov["crash_points_recovered"] = probes["c05.recovered"]
+	}
 	return map[string]interface{}{
 		"property_id": prop,
 		"tier":        tier,
